@@ -293,7 +293,8 @@ class TableParser:
             ):
                 self.parse_complex_caption(children, start, i, modifier)
                 return
-            elif token.text == "|" and modifier is None:
+            elif token.type == T.t_special and token.text == "|" and modifier is None:
+                # (a "|" protected by <nowiki> is a text token, not the attribute separator)
                 modifier = i
             elif token.type == T.t_2box_open and modifier is None:
                 modifier = 0
